@@ -7,6 +7,7 @@
    library code, its output order is an observed input that the check verifies to be a sorted permutation.
    Names are byte lists without the NUL padding of BoardID_t (13 bytes); a vacated slot has the empty name. *)
 From Verif Require Import Base.Common Base.OddSearch.
+From Verif Require Gen.Consts_default.
 
 Definition tolower (ch : Z) : Z := if (65 <=? ch) && (ch <=? 90) then ch + 32 else ch.
 
@@ -151,6 +152,196 @@ Fixpoint walk_class (fuel : nat) (titles names : list (list Z)) (k : nat) (asc :
 Definition page_walk_class (titles names : list (list Z)) (k : nat) (asc : bool) : res (Z * list Z) :=
   walk_class (S (S (S (2 * length names)))) titles names k asc (if asc then 1 else 0) 0 [].
 
+(* ---- the orders the two indexes are sorted with (cache/shm_board_by.go) ---- *)
+Definition less_name (a b : list Z) : bool := cstrcasecmp (boardid a) (boardid b) <? 0.
+Definition less_class (a b : list Z * list Z) : bool :=   (* (Title[:5], name) *)
+  let j := cstrcmp (firstn 4 (fst a)) (firstn 4 (fst b)) in
+  if j =? 0 then cstrcasecmp (boardid (snd a)) (boardid (snd b)) <? 0 else j <? 0.
+(* no adjacent pair is out of order *)
+Fixpoint sorted_by {A} (less : A -> A -> bool) (l : list A) : bool :=
+  match l with
+  | a :: ((b :: _) as r) => negb (less b a) && sorted_by less r
+  | _ => true
+  end.
+
+(* ---- the board cache over a HISTORY: (re)loading from the board file, creations, the busy flag ----
+   cache.ReloadBCache / reloadBCacheCore / SortBCache / ResetBoard / AddbrdTouchCache (cache/cache_board.go),
+   cmsys.AppendRecord on .BRD, ptt.addBoardRecord (ptt/admin.go). A record is the list of its RS bytes; only the name
+   (bytes 0..12) and Title[:5] (bytes 13..17) are read by the lookups. The file is absent or a byte string; only its
+   complete records are ever read (reloadBCacheCore: BNumber = size / RS; AppendRecord writes at (size / RS) * RS, over
+   an incomplete tail). The state keeps BCache[0 .. BNumber): every operation below that raises BNumber writes the whole
+   slot it exposes first. The two sort functions are a parameter [srt] (sort.Sort is library code); they return
+   BSorted + 1 (bids). *)
+Definition RS : Z := Gen.Consts_default.ptttype.BOARD_HEADER_RAW_SZ.
+Definition MAXB : Z := Gen.Consts_default.ptttype.MAX_BOARD.
+
+Definition rec_name (r : list Z) : list Z := cprefix (firstn 13 r).
+Definition rec_title5 (r : list Z) : list Z := firstn 5 (skipn 13 r).
+Definition rec_entry (r : list Z) : list Z * list Z := (rec_title5 r, rec_name r).
+Definition mkrec (name18 : list Z) : list Z := fixlen 18 name18 ++ repeat 0 (Z.to_nat RS - 18).
+
+(* the complete records of a byte string *)
+Fixpoint chunks (fuel : nat) (b : list Z) : list (list Z) :=
+  match fuel with
+  | O => []
+  | S f => if RS <=? lenZ b then firstn (Z.to_nat RS) b :: chunks f (skipn (Z.to_nat RS) b) else []
+  end.
+Definition records (b : list Z) : list (list Z) := chunks (length b) b.
+
+Record bst : Type := mk_bst {
+  bfile : option (list (list Z));   (* .BRD: absent, or its complete records *)
+  btbl : list (list Z);             (* Shm.BCache[0 .. BNumber) *)
+  bbusy : Z;                        (* Shm.BBusyState *)
+  bsn : list Z;                     (* Shm.BSorted[by name] + 1 *)
+  bsc : list Z }.                   (* Shm.BSorted[by class] + 1 *)
+Definition fresh : bst := mk_bst None [] 0 [] [].   (* shared memory after start-up, no board file yet *)
+
+Definition sorter : Type := (list (list Z) -> list Z) * (list (list Z * list Z) -> list Z).
+Definition tnames (s : bst) : list (list Z) := map rec_name (btbl s).
+Definition tentries (s : bst) : list (list Z * list Z) := map rec_entry (btbl s).
+Definition file_recs (s : bst) : list (list Z) := match bfile s with Some x => x | None => [] end.
+
+(* SortBCache: a silent no-op (after a second) while the flag is set; else flag := 1, both sorts, deferred flag := 0 *)
+Definition sort_bcache (srt : sorter) (s : bst) : bst :=
+  if bbusy s =? 0 then mk_bst (bfile s) (btbl s) 0 (fst srt (tnames s)) (snd srt (tentries s)) else s.
+
+(* reloadBCacheCore: flag := 1 with a deferred flag := 0 that also runs on the early return when .BRD cannot be read *)
+Definition reload_core (s : bst) : bst :=
+  let s1 := mk_bst (bfile s) (btbl s) 1 (bsn s) (bsc s) in
+  match bfile s1 with
+  | None => mk_bst (bfile s1) (btbl s1) 0 (bsn s1) (bsc s1)
+  | Some recs => mk_bst (bfile s1) (firstn (Z.to_nat MAXB) recs) 0 (bsn s1) (bsc s1)
+  end.
+(* ReloadBCache (the 10 s wait on the flag is not a lock and is not modelled) *)
+Definition reload (srt : sorter) (s : bst) : bst := sort_bcache srt (reload_core s).
+(* the harness (or an administrator) puts a board file in place, then ReloadBCache *)
+Definition install (srt : sorter) (b : list Z) (s : bst) : bst :=
+  reload srt (mk_bst (Some (records b)) (btbl s) (bbusy s) (bsn s) (bsc s)).
+
+Definition set_slot (i : nat) (r : list Z) (l : list (list Z)) : list (list Z) := firstn i l ++ r :: skipn (S i) l.
+
+(* ResetBoard(bid = i + 1): ErrBusy while the flag is set; reads record i of .BRD into the slot *)
+Definition reset_board (i : nat) (s : bst) : option bst :=
+  if bbusy s =? 0 then
+    match nth_error (file_recs s) i with
+    | Some r => match bfile s with
+                | Some _ => Some (mk_bst (bfile s) (set_slot i r (btbl s)) (bbusy s) (bsn s) (bsc s))
+                | None => None
+                end
+    | None => None
+    end
+  else None.
+
+(* the append path of ptt.addBoardRecord: cmsys.AppendRecord (creates the file; writes after the last complete record),
+   then cache.AddbrdTouchCache: BNumber++, ResetBoard(BNumber), SortBCache. None = the creation is refused (the state
+   of the cache after a refused creation is not modelled). *)
+Definition create (srt : sorter) (r : list Z) (s : bst) : option bst :=
+  let i := length (btbl s) in
+  if MAXB <=? Z.of_nat i then None
+  else
+    let s1 := mk_bst (Some (file_recs s ++ [r])) (btbl s) (bbusy s) (bsn s) (bsc s) in
+    match reset_board i s1 with
+    | Some s2 => Some (sort_bcache srt s2)
+    | None => None
+    end.
+
+(* the index as the lookups see it: names / titles in the order of BSorted *)
+Definition by_bids {A} (d : A) (l : list A) (bids : list Z) : list A := map (fun b => nth (Z.to_nat (b - 1)) l d) bids.
+Definition snames (s : bst) : list (list Z) := by_bids [] (tnames s) (bsn s).
+Definition cnames (s : bst) : list (list Z) := by_bids [] (tnames s) (bsc s).
+Definition ctitles (s : bst) : list (list Z) := by_bids [] (map rec_title5 (btbl s)) (bsc s).
+
+(* bbs.CreateBoard -> ptt.NewBoard -> mNewbrd -> addBoardRecord: (error code of the driver, state) *)
+Definition new_board (srt : sorter) (name cls : list Z) (s : bst) : Z * bst :=
+  let r := mkrec (fixlen 13 name ++ fixlen 4 cls ++ [32]) in
+  match get_bid (snames s) (bsn s) name with
+  | Ok b =>
+      if 0 <? b then (4, s)
+      else match get_bid (snames s) (bsn s) [] with
+           | Ok v =>
+               if 0 <? v then   (* a vacated slot: SubstituteRecord, ResetBoard (error ignored), SortBCache *)
+                 let i := Z.to_nat (v - 1) in
+                 let s1 := mk_bst (Some (set_slot i r (file_recs s))) (btbl s) (bbusy s) (bsn s) (bsc s) in
+                 (0, sort_bcache srt (match reset_board i s1 with Some s2 => s2 | None => s1 end))
+               else if MAXB <=? lenZ (btbl s) then (5, s)
+               else match create srt r s with Some s' => (0, s') | None => (5, s) end
+           | _ => (5, s)
+           end
+  | _ => (5, s)
+  end.
+
+(* the operations of a history *)
+Inductive bop : Type :=
+| OInstall (b : list Z)     (* a board file is put in place, ReloadBCache *)
+| OReload                   (* ReloadBCache on whatever file there is: none in the fresh state *)
+| OCreate (r : list Z).     (* AppendRecord + AddbrdTouchCache *)
+Definition step_hist (srt : sorter) (o : bop) (s : bst) : option bst :=
+  match o with
+  | OInstall b => Some (install srt b s)
+  | OReload => Some (reload srt s)
+  | OCreate r => create srt r s
+  end.
+Fixpoint run_hist (srt : sorter) (ops : list bop) (s : bst) : option bst :=
+  match ops with
+  | [] => Some s
+  | o :: r => match step_hist srt o s with Some s' => run_hist srt r s' | None => None end
+  end.
+
+(* an insertion sort of the bids 1..n, for the executable model (any sort gives the same index when no two boards tie) *)
+Fixpoint insert_by {A} (less : A -> A -> bool) (x : A) (l : list A) : list A :=
+  match l with
+  | [] => [x]
+  | y :: r => if less x y then x :: y :: r else y :: insert_by less x r
+  end.
+Definition isort_by {A} (less : A -> A -> bool) (l : list A) : list A := fold_right (insert_by less) [] l.
+Definition bid_seq (n : nat) : list Z := map (fun i => Z.of_nat i + 1) (seq 0 n).
+Definition isorter : sorter :=
+  (fun names => isort_by (fun a b => less_name (nth (Z.to_nat (a - 1)) names []) (nth (Z.to_nat (b - 1)) names [])) (bid_seq (length names)),
+   fun ents => isort_by (fun a b => less_class (nth (Z.to_nat (a - 1)) ents ([], [])) (nth (Z.to_nat (b - 1)) ents ([], []))) (bid_seq (length ents))).
+
+(* ---- the scenario driver (op 8): one length-prefixed record per step, see go/impl/cmd/implrun/c11hist.go ---- *)
+Definition resZ (r : res Z) : Z := match r with Ok v => v | Crash => -101 | Hang => -102 end.
+Fixpoint chunk18 (l : list Z) (n : nat) : list (list Z) :=
+  match n with O => [] | S n' => firstn 18 l :: chunk18 (skipn 18 l) n' end.
+Definition status_of (err : Z) (s : bst) : list Z :=
+  [err; bbusy s; 0; lenZ (btbl s); match bfile s with Some x => lenZ x | None => -1 end].
+Definition walk_out (r : res (Z * list Z)) : Z * list Z :=
+  match r with Ok (p, v) => (0, p :: v) | Crash => (6, []) | Hang => (7, []) end.
+
+Definition scen_step (st : list Z) (s : bst) : list Z * bst :=
+  match st with
+  | 1 :: tail :: n :: data =>
+      let b := concat (map mkrec (chunk18 data (Z.to_nat n))) ++ repeat 122 (Z.to_nat tail) in
+      let s' := install isorter b s in (status_of 0 s', s')
+  | [2] => let s' := reload isorter s in (status_of 0 s', s')
+  | 3 :: data =>
+      match create isorter (mkrec data) s with
+      | Some s' => (status_of 0 s', s')
+      | None => (status_of 3 s, s)
+      end
+  | 4 :: data =>
+      let '(e, s') := new_board isorter (cprefix (firstn 13 data)) (firstn 4 (skipn 13 data)) s in (status_of e s', s')
+  | 5 :: q =>
+      (status_of 0 s ++ [resZ (get_bid (snames s) (bsn s) q); resZ (find_by_name (snames s) q true); resZ (find_by_name (snames s) q false);
+                         resZ (autocomplete (snames s) q true); resZ (autocomplete (snames s) q false)], s)
+  | 6 :: l :: r =>
+      let cls := firstn (Z.to_nat l) r in let q := skipn (Z.to_nat l) r in
+      (status_of 0 s ++ [resZ (find_by_class (ctitles s) (cnames s) cls q true); resZ (find_by_class (ctitles s) (cnames s) cls q false)], s)
+  | [7; k; asc; by_] =>
+      let '(e, v) := walk_out (if by_ =? 0 then page_walk (snames s) (Z.to_nat k) (negb (asc =? 0))
+                               else page_walk_class (ctitles s) (cnames s) (Z.to_nat k) (negb (asc =? 0))) in
+      (status_of e s ++ v, s)
+  | [9] =>
+      (status_of 0 s ++ map (fun b => b - 1) (bsn s) ++ map (fun b => b - 1) (bsc s)
+         ++ concat (map (fun r => firstn 18 r) (btbl s)), s)
+  | _ => ([-9], s)
+  end.
+Fixpoint scen_run (steps : list (list Z)) (s : bst) : list Z :=
+  match steps with
+  | [] => []
+  | st :: r => let '(o, s') := scen_step st s in lenZ o :: o ++ scen_run r s'
+  end.
+
 (* ---- wire ---- *)
 (* a group of NUL-terminated strings *)
 Fixpoint split0 (l cur : list Z) : list (list Z) :=
@@ -166,7 +357,8 @@ Fixpoint chunk5 (l : list Z) : list (list Z) :=
 
 (* op 1 GetBid [names][bids][q]; 2 FindBoardIdxByName [names][q][asc]; 3 FindBoardIdxByClass [titles5][names][cls][q][asc];
    4 FindBoardAutoCompleteStartIdx [names][kw][asc]; 5 listing walk by name [names][k asc];
-   7 listing walk by class [titles5][names][k asc] (both in by-class order) *)
+   7 listing walk by class [titles5][names][k asc] (both in by-class order);
+   8 a history in fresh state: one group per step (scen_step) *)
 Definition run_case (args : list (list Z)) : list Z :=
   match args with
   | [[1]; names; bids; q] => wire (fun b => [b]) (get_bid (split0 names []) bids q)
@@ -177,17 +369,6 @@ Definition run_case (args : list (list Z)) : list Z :=
   | [[5]; names; [k; asc]] => wire (fun r => fst r :: snd r) (page_walk (split0 names []) (Z.to_nat k) (negb (asc =? 0)))
   | [[7]; titles; names; [k; asc]] =>
       wire (fun r => fst r :: snd r) (page_walk_class (chunk5 titles) (split0 names []) (Z.to_nat k) (negb (asc =? 0)))
+  | [8] :: steps => ST_OK :: scen_run steps fresh
   | _ => [ST_BADCASE]
-  end.
-
-(* ---- the orders the two indexes are sorted with (cache/shm_board_by.go) ---- *)
-Definition less_name (a b : list Z) : bool := cstrcasecmp (boardid a) (boardid b) <? 0.
-Definition less_class (a b : list Z * list Z) : bool :=   (* (Title[:5], name) *)
-  let j := cstrcmp (firstn 4 (fst a)) (firstn 4 (fst b)) in
-  if j =? 0 then cstrcasecmp (boardid (snd a)) (boardid (snd b)) <? 0 else j <? 0.
-(* no adjacent pair is out of order *)
-Fixpoint sorted_by {A} (less : A -> A -> bool) (l : list A) : bool :=
-  match l with
-  | a :: ((b :: _) as r) => negb (less b a) && sorted_by less r
-  | _ => true
   end.
